@@ -280,6 +280,7 @@ func buildReverseSearchers(
 			if err != nil {
 				result.finalStrategy = UseDFA
 			} else {
+				searcher.SetLineBounded(!canMatchNewline(re))
 				result.reverseInnerSearcher = searcher
 			}
 		}
